@@ -95,9 +95,14 @@ def text(bits, max_size, exclude="", hot=""):
             ch = chr(0x80 + bits.below(0x80))
         elif cls < 12:
             ch = bits.pick(hot)
-        elif cls < 14:
+        elif cls < 13:
             cp = 0x100 + bits.below(0x10000 - 0x100 - 0x800)
             ch = chr(cp + 0x800 if cp >= 0xD800 else cp)
+        elif cls < 14:
+            # blocks full of look-alikes of ASCII / windows-1252 characters ("best fit" candidates): Latin
+            # Extended-A, General Punctuation, Letterlike Symbols, Mathematical Operators, fullwidth forms
+            lo, hi = bits.pick(((0x100, 0x17F), (0x2000, 0x206F), (0x2100, 0x214F), (0x2200, 0x222F), (0xFF00, 0xFF5E)))
+            ch = chr(lo + bits.below(hi - lo + 1))
         else:
             ch = chr(0x10000 + bits.below(0x100000))
         out.append("a" if ch in exclude else ch)
